@@ -209,6 +209,12 @@ func c14FlagCases() []c14Case {
 	for _, a := range [][]string{{"check", "deep.knut"}, {"balance", "--color=false", "deep.knut"}, {"check", "l0.knut"}, {"print", "l0.knut"}, {"check", "zero.knut"}, {"check", strings.Repeat("../", 16) + "dev/zero"}} {
 		cs = append(cs, c14Case{Files: big, Args: a, Class: "extreme-input", Extreme: true})
 	}
+	for _, m := range []string{"9223372036854775807:1,.", "1:9223372036854775807,.", "9223372036854775807:9223372036854775807,.", "9223372036854775807,."} {
+		ext("extreme-mapping", "portfolio", "weights", "-v", "CHF", "--color=false", "-m", m, "j.knut")
+		ext("extreme-mapping", "portfolio", "weights", "-v", "CHF", "--color=false", "--universe", "u.yaml", "-m", m, "j.knut")
+		ext("extreme-mapping", "balance", "--color=false", "-m", m, "j.knut")
+		ext("extreme-mapping", "balance", "--color=false", "-v", "CHF", "-m", m, "j.knut")
+	}
 	ext("extreme-window", "balance", "--color=false", "--days", "--from", "0001-01-01", "--to", "9999-12-31", "j.knut")
 	ext("extreme-window", "portfolio", "returns", "-v", "CHF", "--days", "--from", "0001-01-01", "--to", "9999-12-31", "j.knut")
 	ext("extreme-window", "portfolio", "weights", "-v", "CHF", "--color=false", "--days", "--from", "0001-01-01", "--to", "9999-12-31", "j.knut")
@@ -339,6 +345,7 @@ func c14Run(e *core.Env) {
 			{"balance", "--color=false", "-v", "CHF", "--remap", "Assets", "-m", "2,Assets", "--months", "stress.knut"},
 			{"transcode", "-v", "CHF", "stress.knut"}, {"print", "stress.knut"}, {"check", "stress.knut"},
 			{"portfolio", "weights", "-v", "CHF", "--color=false", "--months", "stress.knut"}, {"portfolio", "returns", "-v", "CHF", "--months", "stress.knut"},
+			{"portfolio", "returns", "-v", "CHF", "--account", "Assets:Portfolio", "--commodity", "STK|CHF", "stress.knut"},
 			{"check", "multi.knut"}, {"balance", "--color=false", "--months", "multi.knut"},
 		} {
 			for i := 0; i < reps; i++ {
